@@ -233,3 +233,19 @@ fn c09_gearset_name_len45() { gearset_name_case::<45>(); }
 #[kani::unwind(50)]
 #[kani::stub(core::str::validations::run_utf8_validation, crate::verif_support::refs::ascii_utf8_validation)]
 fn c09_gearset_name_len1() { gearset_name_case::<1>(); }
+
+/// the longest name the field holds, concrete text (decided by constant propagation): every one of the 46 bytes is kept
+#[kani::proof]
+#[kani::unwind(50)]
+#[kani::stub(core::str::validations::run_utf8_validation, crate::verif_support::refs::ascii_utf8_validation)]
+fn c09_gearset_name_concrete46() {
+    let text = b"ABCDEFGHIJKLMNOPQRSTUVWXYZabcdefghijklmnopqrst";
+    let name = unsafe { String::from_utf8_unchecked(text.to_vec()) };
+    assert_eq!(name.len(), 46);
+    let ns = convert_from_string(&name);
+    assert_eq!(ns.0.len(), 46);
+    let mut i = 0;
+    while i < 46 { assert_eq!(ns.0[i], text[i]); i += 1; }
+    kani::cover!(true);
+    core::mem::forget((name, ns));
+}
